@@ -244,6 +244,20 @@ def main(argv):
     ap.add_argument("--replay")
     a = ap.parse_args(argv)
     sys.path.insert(0, os.path.join(VERIF, "harness", "checks"))
+    # watchdog: a library call that never returns (e.g. a sampler that never accepts) must not hang the check
+    import signal
+
+    class LibraryHang(Exception):
+        pass
+
+    def on_alarm(signum, frame):
+        raise LibraryHang("no progress for %d s" % limit)
+    limit = int(os.environ.get("VERIF_WATCHDOG_S", "3000" if a.tier == "quick" else "40000"))
+    try:
+        signal.signal(signal.SIGALRM, on_alarm)
+        signal.alarm(limit)
+    except Exception:                       # noqa
+        pass
     try:
         ensure_built()
         mod = importlib.import_module(a.pid.lower())
